@@ -37,6 +37,139 @@ def compare(r, cases, impl):
     return bad
 
 
+PRE_POST = """From Coq Require Import List NArith Bool.
+From Echo Require Import Base.FinMap Model.Patch.
+Import ListNotations.
+Open Scope N_scope.
+Definition fatt (a : att) := match a with Atom t d => (0, t, d) | Descend w => (1, w, []) end.
+Definition fkey (k : akey) := ((if ak_edge k then 1 else 0), (if ak_beta k then 1 else 0), ak_warp k, ak_id k).
+Definition fstore (kv : N * store) :=
+  (fst kv, s_nodes (snd kv), map (fun x : N * erec => (fst x, e_from (snd x), e_to (snd x), e_ty (snd x))) (s_edges (snd kv)),
+   map (fun x : N * att => (fst x, fatt (snd x))) (s_natt (snd kv)), map (fun x : N * att => (fst x, fatt (snd x))) (s_eatt (snd kv))).
+Definition finst (kv : N * imeta) := (fst kv, fst (snd kv), match snd (snd kv) with None => [] | Some k => [fkey k] end).
+Definition flat (s : state) := (map fstore (st_stores s), map finst (st_insts s)).
+Definition post (ops : list op) (st : state) := match apply_ops ops st with Ok s => (0, [flat s]) | Err _ => (1, []) end.
+"""
+
+
+def _akey(s):
+    """'na1.7' / 'eb1_7' -> (edge, beta, warp, id)"""
+    s = s.replace("_", ".")
+    w, i = s[2:].split(".")
+    return (1 if s[0] == "e" else 0, 1 if s[1] == "b" else 0, int(w), int(i))
+
+
+def _akey_t(k):
+    return f"(mk_akey {'true' if k[0] else 'false'} {'true' if k[1] else 'false'} {k[2]} {k[3]})"
+
+
+def _bytes(hx):
+    return [int(hx[i:i + 2], 16) for i in range(0, len(hx), 2)]
+
+
+def _att_t(a):
+    if a[0] == 0:
+        return f"(Atom {a[1]} [{'; '.join(map(str, a[2]))}])"
+    return f"(Descend {a[1]})"
+
+
+def parse_dump(d):
+    """dump_state text -> (stores, insts) in the shape of the model's `flat`"""
+    stores, insts = [], []
+    parts = d.split("|")
+    for hd, body in zip(parts[0::2], parts[1::2]):
+        h = hd.split(":")
+        w = int(h[0][1:])
+        root = int(h[1].split("=")[1], 16)
+        par = h[2].split("=")[1]
+        insts.append((w, root, [] if par == "-" else [_akey(par)]))
+        nodes, edges, natt, eatt = [], [], [], []
+        for it in [x for x in body.split(",") if x]:
+            if it[0] == "n":
+                a, b = it[1:].split(":")
+                nodes.append((int(a, 16), int(b, 16)))
+            elif it[0] == "e":
+                a, rest = it[1:].split(":", 1)
+                ft, ty = rest.rsplit(":", 1)
+                f, t = ft.split(">")
+                edges.append((int(a, 16), int(f, 16), int(t, 16), int(ty, 16)))
+            else:
+                a, v = it[1:].split("=")
+                v = v.split(":")
+                val = (0, int(v[1], 16), _bytes(v[2])) if v[0] == "atom" else (1, int(v[1], 16), [])
+                (natt if it[0] == "a" else eatt).append((int(a, 16), val))
+        stores.append((w, sorted(nodes), sorted(edges), sorted(natt), sorted(eatt)))
+    return (sorted(stores), sorted(insts))
+
+
+def state_term(st):
+    stores, insts = st
+    def m(l, f):
+        return "[" + "; ".join(f(x) for x in l) + "]"
+    ss = m(stores, lambda s: f"({s[0]}, mk_store {m(s[1], lambda n: f'({n[0]}, {n[1]})')} "
+           f"{m(s[2], lambda e: f'({e[0]}, ({e[1]}, {e[2]}, {e[3]}))')} {m(s[3], lambda a: f'({a[0]}, {_att_t(a[1])})')} "
+           f"{m(s[4], lambda a: f'({a[0]}, {_att_t(a[1])})')})")
+    ii = m(insts, lambda i: f"({i[0]}, ({i[1]}, {'None' if not i[2] else 'Some ' + _akey_t(i[2][0])}))")
+    return f"(mk_state {ss} {ii})"
+
+
+def op_term(o):
+    f = o.split(".")
+    k = f[0]
+    if k == "UN": return f"UpsertNode {f[1]} {f[2]} {f[3]}"
+    if k == "DN": return f"DeleteNode {f[1]} {f[2]}"
+    if k == "UE": return f"UpsertEdge {f[1]} {f[2]} {f[3]} {f[4]} {f[5]}"
+    if k == "DE": return f"DeleteEdge {f[1]} {f[2]} {f[3]}"
+    if k == "SA":
+        v = f[2]
+        if v == "-": vt = "None"
+        elif v.startswith("atom_"):
+            _, ty, hx = v.split("_")
+            vt = "(Some " + _att_t((0, int(ty), _bytes(hx))) + ")"
+        else:
+            vt = f"(Some (Descend {v.split('_')[1]}))"
+        return f"SetAtt {_akey_t(_akey(f[1]))} {vt}"
+    raise vf.Broken("op not expected in a merged tick delta: " + o)
+
+
+def _norm(v):
+    """parsed Coq value -> nested tuples/lists of ints comparable with parse_dump"""
+    if isinstance(v, (list, tuple)):
+        t = [_norm(x) for x in v]
+        return tuple(t) if isinstance(v, tuple) else t
+    return v
+
+
+def _tup(v):
+    if isinstance(v, list): return [_tup(x) for x in v]
+    if isinstance(v, tuple): return tuple(_tup(x) for x in v)
+    return v
+
+
+def compare_post(impl):
+    """post-state of a committed tick = verified Patch.apply_ops (C04's model) of the merged ops on the pre-state"""
+    idx, terms = [], []
+    for i, l in enumerate(impl):
+        f = tickgen.fields(l)
+        if f["res"].startswith("Err:") or f.get("mops", "-") == "-":
+            continue
+        ops = "[" + "; ".join(op_term(o) for o in f["mops"].split("+")) + "]"
+        terms.append(f"post {ops} {state_term(parse_dump(f['pre']))}")
+        idx.append(i)
+    vals = vf.coq_eval("c01post", PRE_POST, terms, timeout=1500)
+    bad = []
+    for i, v in zip(idx, vals):
+        f = tickgen.fields(impl[i])
+        want = parse_dump(f["post"])
+        got = None
+        if v[0] == 0:
+            got = _tup(v[1][0])
+            got = (sorted(got[0]), sorted(got[1]))
+        if got != _tup(want):
+            bad.append((i, f"post={want}", f"post={got}"))
+    return bad, len(idx)
+
+
 def run(tier, seed, replay=None):
     r = vf.Run(PROP, tier, seed, "proof")
     r.assumptions = [
@@ -77,6 +210,14 @@ def run(tier, seed, replay=None):
     except vf.Broken as e:
         r.is_broken("model-eval", e)
         bad = []
+    try:
+        badp, npost = compare_post(impl)
+    except vf.Broken as e:
+        r.is_broken("model-eval-post", e)
+        badp, npost = [], 0
+    r.cov["post_states_validated_against_patch_model"] = npost - len(badp)
+    for i, a, m in badp[:3]:
+        r.is_broken("correspondence:post-state", f"post-state differs from Patch.apply_ops(merged ops, pre-state) on: {cases[i][:1200]}\n impl : {a[:700]}\n model: {m[:700]}")
     for i, a, m in bad[:3]:
         r.is_broken("correspondence", f"model and implementation differ on: {cases[i][:1200]}\n impl : {a[:500]}\n model: {m[:500]}")
     if r.broken and not r.violations and not replay:
